@@ -274,3 +274,66 @@ def rand_long_path(rnd):
         u.append(unit())
     g = u[0] if len(u) == 1 else (rnd.choice(['and', 'or']),) + tuple(u)
     return g
+
+
+def rand_restricted(rnd, logic, d, leaves=L0, made=None):
+    """random formula over the RESTRICTED alphabet of the logic (CTL: not/or/EX/EU/EG; LTL and CTL* path level:
+    not/or/X/U, CTL* also E) in which subformulas recur: such a formula needs no rewriting, so the algorithms work on
+    the caller's own objects, and a repeated subformula is already in the labelling table when it is met again."""
+    if made is None:
+        made = []
+    if made and rnd.random() < 0.35:
+        return rnd.choice(made)
+    if d == 0 or rnd.random() < 0.15:
+        f = rnd.choice(leaves)
+    else:
+        if logic == 'CTL':
+            t = rnd.choice(['not', 'or', 'or', 'EX', 'EU', 'EG'])
+            sub = lambda: rand_restricted(rnd, logic, d - 1, leaves, made)
+            if t == 'not':
+                f = ('not', sub())
+            elif t == 'or':
+                f = ('or',) + tuple(sub() for _ in range(rnd.choice([2, 2, 3])))
+            elif t == 'EX':
+                f = ('E', ('X', sub()))
+            elif t == 'EG':
+                f = ('E', ('G', sub()))
+            else:
+                f = ('E', ('U', sub(), sub()))
+        else:
+            t = rnd.choice(['not', 'or', 'or', 'X', 'U'] + (['E'] if logic == 'CTLS' else []))
+            sub = lambda: rand_restricted(rnd, logic, d - 1, leaves, made)
+            if t in ('not', 'X', 'E'):
+                f = (t, sub())
+            elif t == 'or':
+                f = ('or',) + tuple(sub() for _ in range(rnd.choice([2, 2, 3])))
+            else:
+                f = ('U', sub(), sub())
+    made.append(f)
+    return f
+
+
+def multi_core_kripke(rnd, atoms=('p', 'q')):
+    """two or three strongly connected cores (every state with a self-loop, 2-3 states each: each one a fair-SCC candidate
+    also for the as-coded get_fair_states), optionally chained, plus an optional transient source; returns (K, cores)"""
+    cores = []
+    n = 0
+    R = set()
+    for _ in range(rnd.choice([2, 2, 3])):
+        k = rnd.choice([2, 2, 3])
+        c = list(range(n, n + k))
+        n += k
+        cores.append(c)
+        for i in range(k):
+            R.add((c[i], c[i]))
+            R.add((c[i], c[(i + 1) % k]))
+    for i in range(len(cores) - 1):
+        if rnd.random() < 0.6:
+            R.add((rnd.choice(cores[i]), rnd.choice(cores[i + 1])))
+    if rnd.random() < 0.5:
+        R.add((n, rnd.choice(rnd.choice(cores))))
+        if rnd.random() < 0.5:
+            R.add((n, rnd.choice(rnd.choice(cores))))
+        n += 1
+    L = [sorted(x for x in atoms if rnd.random() < 0.5) for _ in range(n)]
+    return {'n': n, 'R': [list(e) for e in sorted(R)], 'L': L}, cores
